@@ -16,10 +16,24 @@ Definition sx_res (r : res (list entry * list path)) : sx :=
   | Err e => SL [SA "raised"; sx_ekind e]
   end.
 
+(* difflib opcodes looked up by the two sequences (the path under which a
+   pair of sequences is compared depends on key cleaning) *)
+Fixpoint vlist_eqb (xs ys : list value) : bool :=
+  match xs, ys with
+  | [], [] => true
+  | x :: a, y :: b => value_eqb x y && vlist_eqb a b
+  | _, _ => false
+  end.
+Definition tbl_ops2 (t : list (list value * list value * list opcode)) (_ : path) (xs ys : list value) : list opcode :=
+  match find (fun x => vlist_eqb (fst (fst x)) xs && vlist_eqb (snd (fst x)) ys) t with
+  | Some x => snd x
+  | None => []
+  end.
+
 (* one run: tables for the library oracles, configuration, options, inputs *)
-Definition run_sx (ud : list (pystr * pystr * pystr)) (op : list (path * list opcode))
+Definition run_sx (ud : list (pystr * pystr * pystr)) (op : list (list value * list value * list opcode))
            (c : cfg) (F : opts) (t1 t2 : value) : sx :=
-  sx_res (run_optF (tbl_udiff ud) (tbl_ops op) c F t1 t2).
+  sx_res (run_optF (tbl_udiff ud) (tbl_ops2 op) c F t1 t2).
 
 (* atom-level observables on arbitrary dyadic rationals *)
 Definition num_str_sx (d : N) (m : Z) (e : N) : sx := sx_str (num_str d (m, e)).
